@@ -37,11 +37,7 @@ INDEX_FUNCS = {'index_at_distance', 'find_index_of_point_for_distance', 'find_in
 
 
 def _row(ev, st, prog):
-    td = prog.cls(C.M_TD, 'TrajectoryData')
-    f = {k: NONE for k in prog.namedtuple_fields(td)}
-    f['distance'] = C.mk_quantity(ev, st, prog, 'Distance', 'x', 'Foot')
-    f['time'] = S('t')
-    return ev.new_inst(st, td, f)
+    return C.mk_row(ev, st, prog, 'row_', {'distance': C.mk_quantity(ev, st, prog, 'Distance', 'x', 'Foot'), 'time': S('t')})
 
 
 def _is_ge(ev, v, key_sym: str, q_sym: str) -> Optional[str]:
@@ -134,6 +130,19 @@ def run(prog: Program, rep, thorough: bool) -> None:
         d = C.mk_quantity(ev, st, prog, 'Distance', 'q', 'Yard')
         # bind whatever the predicate uses for the row
         st.env[iad.positional[1]] = d
+        st.env[iad.positional[0]] = SymObj('self', prog.cls(C.M_TD, 'HitResult'))
+        # statements before the scan (locals the predicate reads)
+        pre_stmts = []
+        for s_ in iad.node.body:
+            if isinstance(s_, (ast.Return, ast.For, ast.While)) or any(isinstance(x, ast.GeneratorExp) for x in ast.walk(s_)):
+                break
+            pre_stmts.append(s_)
+        try:
+            t_pre = ev.exec_block(pre_stmts, st, Ctx(td, iad, None, 0))
+            if isinstance(t_pre, Leaf):
+                st = t_pre.state
+        except Undecided as exc:
+            raise AnalysisError(f'index_at_distance: {exc}') from exc
         txt = norm(pred)
         if row_expr.startswith('self.trajectory['):
             class _Sub(ast.NodeTransformer):
